@@ -23,7 +23,7 @@ import subprocess
 import sys
 import time
 
-ROOT = "/verif"
+ROOT = os.environ.get("VERIF_ROOT", "/verif")
 SPEC = ROOT + "/spec"
 OUT = ROOT + "/out"
 HARNESS = ROOT + "/harness"
@@ -334,6 +334,18 @@ PROPS = {
               dict(driver="hist", args=["--nops", "70", "--per-file", "6", "--descriptors",
                                         "--compact-bias", "1", "--profile", "fill"],
                    quick=24, thorough=600)]),
+    "C12": dict(
+        design=[("MC_RainLog.tla", ["MC_RainLog_small.cfg", "MC_RainLog_realq.cfg"],
+                 ["MC_RainLog_small.cfg", "MC_RainLog_deep.cfg", "MC_RainLog_real.cfg"])],
+        switches=[("Bug_TrailerThresholdOffByOne", "MC_RainLog.tla", "MC_RainLog_small.cfg", "WriterPosition"),
+                  ("Bug_NoOffsetRestoreOnReopen", "MC_RainLog.tla", "MC_RainLog_small.cfg", "WriterPosition"),
+                  ("Bug_ReaderSplicesFragments", "MC_RainLog.tla", "MC_RainLog_small.cfg", "PrefixSafe"),
+                  ("Bug_ReaderStopsAfterPartial", "MC_RainLog.tla", "MC_RainLog_small.cfg", "PrefixSafe")],
+        trace=("RainLog_Trace.tla", "RainLog_Trace.cfg"),
+        work=[dict(driver="logfmt", args=["--mode", "boundary", "--parts", "9"], quick=18, thorough=162),
+              dict(driver="logfmt", args=["--mode", "model", "--maxrecs", "2", "--parts", "8"], quick=18, thorough=144),
+              dict(driver="logfmt", args=["--mode", "random", "--scen", "60"], quick=8, thorough=400),
+              dict(driver="logfmt", args=["--mode", "enum", "--parts", "16"], quick=18, thorough=288)]),
     "C15": dict(
         design=[("MC_RainCorrupt.tla", ["MC_RainCorrupt.cfg"], ["MC_RainCorrupt.cfg"])],
         switches=[("Bug_NoBlockCrc", "MC_RainCorrupt.tla", "MC_RainCorrupt.cfg", "NoInvention"),
@@ -352,7 +364,7 @@ PROPS = {
 }
 
 PROP_SEED_BASE = {"C01": 1000, "C03": 3000, "C07": 7000, "C10": 10000, "C11": 11000,
-                  "C02": 2000, "C16": 16000, "C08": 8000, "C05": 5000, "C06": 6000, "C09": 9000, "C15": 15000}
+                  "C02": 2000, "C16": 16000, "C08": 8000, "C05": 5000, "C06": 6000, "C09": 9000, "C15": 15000, "C12": 12000}
 
 
 def check_prop(prop, tier, seed):
@@ -433,9 +445,15 @@ def finish(prop, tier, seed, t0, design, switches, recs, vruns, rejects, tstates
     events = 0
     for vr in vruns:
         events += 0
+        # a disagreement between the reconstructed state and an observation is a machinery defect
+        # only if the run is otherwise clean: once a property is violated (e.g. a compaction
+        # changed the contents) reads that overlap the change legitimately disagree with the
+        # state reconstructed after it
+        real = [v for v in vr["viol"] if not ({"MODEL", "BIND", "C15P"} & set(v["props"]))]
         for v in vr["viol"]:
             if "MODEL" in v["props"] or "BIND" in v["props"]:
-                tool.append((vr, v))
+                if not real:
+                    tool.append((vr, v))
                 continue
             if prop not in v["props"]:
                 continue
@@ -573,6 +591,7 @@ def replay(path):
             "crash": ("RainCore_Trace.tla", "RainCore_Trace.cfg"),
             "fault": ("RainCore_Trace.tla", "RainCore_Trace.cfg"),
             "corrupt": ("RainCore_Trace.tla", "RainCore_Trace.cfg"),
+            "logfmt": ("RainLog_Trace.tla", "RainLog_Trace.cfg"),
             "sched": CONC_TRACE, "live": CONC_TRACE}[rp["driver"]]
     vruns, rejects, _ = validate_traces(files, spec[0], spec[1], 2, "replay")
     for vr in vruns:
